@@ -11,6 +11,7 @@ package main
 
 import (
 	"fmt"
+	"go/constant"
 	"go/token"
 	"go/types"
 	"strings"
@@ -207,4 +208,134 @@ func ruleLexerInput(c *Ctx) {
 		}
 	}
 	c.census("L-INPUT", "stores into the lexer's text field", n, 1)
+}
+
+// ruleCountsPositive (T1-POS): the per-file counts that the workspace index adds and subtracts are counts of
+// occurrences.  The index removes a file's contribution by subtracting its counts and deleting a key whose total
+// falls to what is subtracted; that is the inverse of adding only if a key is present exactly when its total is
+// positive.  So every store into a map[string]int made by a counting collector (a function of package analyzer that
+// returns such a map) adds to the key's previous value - `m[k]++`, `m[k] += n` - and never plants a key with a
+// constant (a name "registered with a zero count" survives in the total until any file that also mentions it is
+// removed, and is then deleted although another file still declares it).
+func ruleCountsPositive(c *Ctx) {
+	if c.ranOnce("ruleCountsPositive") {
+		return
+	}
+	apk := c.P.SSAPkg("internal/analyzer")
+	n := 0
+	for _, f := range c.P.ModuleFuncs() {
+		top := f
+		for top.Parent() != nil {
+			top = top.Parent()
+		}
+		if top.Pkg != apk || top.Signature.Results().Len() != 1 {
+			continue
+		}
+		if types.TypeString(top.Signature.Results().At(0).Type(), nil) != "map[string]int" {
+			continue
+		}
+		for _, b := range f.Blocks {
+			for _, ins := range b.Instrs {
+				mu, ok := ins.(*ssa.MapUpdate)
+				if !ok || types.TypeString(mu.Map.Type().Underlying(), nil) != "map[string]int" {
+					continue
+				}
+				n++
+				adds := false
+				if bo, ok := mu.Value.(*ssa.BinOp); ok && bo.Op == token.ADD {
+					for _, op := range []ssa.Value{bo.X, bo.Y} {
+						if lk, ok := op.(*ssa.Lookup); ok && lk.X == mu.Map {
+							adds = true
+						}
+					}
+				}
+				_, isConst := mu.Value.(*ssa.Const)
+				c.check(adds || !isConst, "T1-POS", funcName(f), "a count is added to, never planted", mu.Pos(),
+					"the stored value is the key's previous count plus something",
+					"a counting collector stores a constant under a key instead of adding to the key's count: the workspace index removes a file's contribution by subtracting its counts and deletes a key whose total falls to the subtracted amount, which is the inverse of adding only if a key exists exactly when its total is positive - a name registered with a zero count disappears from the incremental view while a rebuild still lists it")
+			}
+		}
+	}
+	c.census("T1-POS", "stores into count maps of the counting collectors", n, 3)
+}
+
+// ruleRuneError (U-RUNEERR): U+FFFD is a character.  Ranging over a string yields utf8.RuneError (U+FFFD) both for
+// an invalid byte (one byte wide) and for a validly encoded U+FFFD (three bytes wide); the rune alone cannot tell
+// them apart.  A number of bytes or code units that is chosen by comparing such a rune with utf8.RuneError - "an
+// invalid byte counts as one" - is therefore wrong for every text that contains a literal U+FFFD (what a client
+// holds for a file it could not decode): offsets behind it are two bytes short, and ranged edits are spliced into
+// the wrong place.  Reported: a comparison of a rune obtained from `range` over a string with the constant 0xFFFD
+// that decides (data or control) an integer; a comparison next to the width reported by utf8.DecodeRune* is fine.
+func ruleRuneError(c *Ctx) {
+	if c.ranOnce("ruleRuneError") {
+		return
+	}
+	n := 0
+	for _, f := range c.P.ModuleFuncs() {
+		for _, b := range f.Blocks {
+			for _, ins := range b.Instrs {
+				bo, ok := ins.(*ssa.BinOp)
+				if !ok || (bo.Op != token.EQL && bo.Op != token.NEQ) {
+					continue
+				}
+				var other ssa.Value
+				for i, op := range []ssa.Value{bo.X, bo.Y} {
+					if k, ok := op.(*ssa.Const); ok && k.Value != nil && k.Value.Kind() == constant.Int && isInt32(k.Type()) {
+						if v, exact := constant.Int64Val(k.Value); exact && v == 0xFFFD {
+							other = []ssa.Value{bo.Y, bo.X}[i]
+						}
+					}
+				}
+				if other == nil {
+					continue
+				}
+				// the rune comes out of a range over a string (directly, or as the parameter of a helper all of
+				// whose callers pass such a rune)
+				var ranged func(v ssa.Value, depth int) bool
+				ranged = func(v ssa.Value, depth int) bool {
+					switch x := stripConv(v).(type) {
+					case *ssa.Extract:
+						if nx, ok := x.Tuple.(*ssa.Next); ok && nx.IsString {
+							return true
+						}
+					case *ssa.Parameter:
+						if depth > 2 {
+							return false
+						}
+						sites := (cgView{c}).callersOf(x.Parent())
+						if len(sites) == 0 {
+							return false
+						}
+						idx := -1
+						for i, q := range x.Parent().Params {
+							if q == x {
+								idx = i
+							}
+						}
+						for _, s := range sites {
+							if idx < 0 || idx >= len(s.Common().Args) || !ranged(s.Common().Args[idx], depth+1) {
+								return false
+							}
+						}
+						return true
+					}
+					return false
+				}
+				if !ranged(other, 0) {
+					continue
+				}
+				n++
+				c.finding("U-RUNEERR", funcName(f), "a rune from a range over a string is not told apart from an invalid byte by its value", bo.Pos(),
+					"a rune obtained by ranging over a string is compared with utf8.RuneError to decide how many bytes or code units it stands for: range yields U+FFFD both for an invalid byte (1 byte) and for a validly encoded U+FFFD (3 bytes), so a text that contains the replacement character itself - what a client holds for a file it could not decode - gets byte offsets that are two short behind it, and ranged changes are applied at the wrong place")
+			}
+		}
+	}
+	if n == 0 {
+		c.ok("U-RUNEERR", "module", "no width decided by comparing a ranged rune with utf8.RuneError", token.NoPos, "no such comparison")
+	}
+}
+
+func isInt32(t types.Type) bool {
+	b, ok := t.Underlying().(*types.Basic)
+	return ok && b.Kind() == types.Int32
 }
